@@ -23,7 +23,7 @@ from ..cfg import must_facts, holds, canon_fact
 from ..rules import settle_sites, check_settles, event_facts, node_assigns, is_none, is_true, is_false, require_after
 from ..mutate import mutate, remove_stmts, replace_expr, replace_stmt, parse_stmt, parse_expr
 from ..model import AnalysisError
-from ..x_sync import own_walk, node_counts, method_call_on, exit_states, own_find, own_settle_sites, check_outcome_reads, handler_catches_cancel
+from ..x_sync import check_none_tests, own_walk, node_counts, method_call_on, exit_states, own_find, own_settle_sites, check_outcome_reads, handler_catches_cancel
 
 TECHNIQUE = "who-may-call lint, handler-structure (exception-escape) rules, exit-state typestate, settle-discipline, dispatch-table extraction"
 EXPLANATION = (
@@ -158,6 +158,28 @@ def check_outcomes(ck):
             ok = h is not None and _handler_settles(fi, h, futs, lambda s: q.call_attr(s) == "future_set_exc_info" or q.call_attr(s) == "future_set_exception_unless_cancelled") is not None
             ck.ob("C37.outcome", fi, c, ok, "an ordinary exception escaping %s is caught and becomes the result future's exception" % kind)
     ck.floor("C37.outcome", n, 4, "advance sites (call, next, send, throw)")
+
+
+def check_return_value(ck):
+    vf = ck.func(G, "_value_from_stopiteration")
+    p_ = vf.params()[0]
+    kinds = []
+    for r in [r for r in own_walk(vf.node) if isinstance(r, ast.Return)]:
+        v = r.value
+        if q.dotted(v) == p_ + ".value":
+            kinds.append("value")
+        elif isinstance(v, ast.Subscript) and q.dotted(v.value) == p_ + ".args" and q.is_const(v.slice, 0):
+            kinds.append("args0")
+        elif v is None or q.is_const(v, None):
+            kinds.append("none")
+        else:
+            kinds.append("other")
+            ck.ob("C37.outcome", vf, r, False, "_value_from_stopiteration returns e.value, e.args[0] or None")
+    ck.ob("C37.outcome", vf, vf.node, "value" in kinds and "other" not in kinds, "the coroutine's result is the StopIteration/Return value (e.value, falling back to e.args[0])", construct="value extraction %s" % sorted(set(kinds)))
+    ri = ck.func(G, "Return.__init__")
+    vp = [x for x in ri.params() if x != "self"][0]
+    ok = any(q.dotted(getattr(st, "value", None)) == vp for st in q.stores_to(ri.node, "self.value"))
+    ck.ob("C37.outcome", ri, ri.node, ok, "gen.Return carries its value in .value", construct="Return stores value")
 
 
 def check_wrapper_ts(ck):
@@ -391,14 +413,19 @@ def run(ck):
     ck.rule("C37.await-read", "the awaited future's outcome is read only when done(); what is read is what is sent/thrown into the generator")
     ck.rule("C37.cancel-aware", "the outcome read of the awaited future is cancel-aware (CancelledError handled or excluded), as `await` would raise CancelledError inside a native coroutine")
     ck.rule("C37.handle-yield", "handle_yield returns True only for a done() future without registering, False only after exactly one wake-up registration; bad yields become failed futures; the Runner starts immediately only on True")
+    ck.rule("C37.none-test", "in Runner.run the saved exception / pending future are compared with None by identity (an exception object may be falsy and must still be thrown into the generator)")
     ck.rule("C37.convert", "convert_yielded: None/moment -> moment; list/dict -> multi; future -> itself; other awaitable -> task; anything else -> BadYieldError")
 
     check_who_may_advance(ck)
     check_outcomes(ck)
+    check_return_value(ck)
     check_wrapper_ts(ck)
     check_runner_run(ck)
     check_handle_yield(ck)
     check_convert(ck)
+    run_ = ck.func(G, "Runner.run")
+    n = check_none_tests(ck, "C37.none-test", run_)
+    ck.floor("C37.none-test", n, 2, "None tests in Runner.run")
 
 
 # ---------------------------------------------------------------------------
@@ -457,6 +484,10 @@ def _undo_cancel_fix(root):
 
 
 MUTANTS = [
+    ("first step: `raise gen.Return(v)` before any yield is stored as an error (handler names StopIteration only, seeded C37-adv1)", _in_wrapper(lambda root: _first_step_only(root, "StopIteration")), "C37.outcome"),
+    ("the decorated function raising gen.Return(v) without being a generator is stored as an error", _in_wrapper(lambda root: _call_handler_only(root)), "C37.outcome"),
+    ("_value_from_stopiteration returns the args tuple", _in("_value_from_stopiteration", replace_expr(lambda n: isinstance(n, ast.Subscript) and "args" in ast.unparse(n), lambda n: n.value)), "C37.outcome"),
+    ("a falsy exception is sent as a value instead of being thrown (`if exc:`)", _in("Runner.run", replace_expr(lambda n: isinstance(n, ast.Compare) and isinstance(n.ops[0], ast.IsNot) and ast.unparse(n.left) == "exc", lambda n: n.left)), "C37.none-test"),
     ("wake-up resumes the coroutine outside its context (self.run() directly)", _in("Runner.handle_yield.<locals>.inner", _unwrap_ctx_run("self.run")), "C37.ctx-run"),
     ("decorated function called outside ctx_run", _in_wrapper(_unwrap_ctx_run("func")), "C37.ctx-run"),
     ("first next() outside ctx_run", _in_wrapper(_unwrap_ctx_run("next")), ("C37.ctx-run", "C37.outcome")),
@@ -532,3 +563,23 @@ def _swap_future_awaitable(root):
     a.test, b.test = b.test, a.test
     a.body, b.body = b.body, a.body
     return True
+
+
+def _first_step_only(root, keep):
+    for t in ast.walk(root):
+        if isinstance(t, ast.Try) and "ctx_run(next" in ast.unparse(t.body[0]):
+            for h in t.handlers:
+                if set(q.handler_names(h)) == set(STOPS):
+                    h.type = ast.Name(id=keep, ctx=ast.Load())
+                    return True
+    return False
+
+
+def _call_handler_only(root):
+    for t in ast.walk(root):
+        if isinstance(t, ast.Try) and "ctx_run(func" in ast.unparse(t.body[0]):
+            for h in t.handlers:
+                if set(q.handler_names(h)) == set(STOPS):
+                    h.type = ast.Name(id="StopIteration", ctx=ast.Load())
+                    return True
+    return False
